@@ -7,7 +7,9 @@ package qcheck
 
 import (
 	"github.com/nuetzliches/hookaido/internal/queue"
+	"encoding/json"
 	"fmt"
+	"os"
 	"path/filepath"
 	"sort"
 	"strings"
@@ -449,7 +451,7 @@ func Report(r *runner.Run, spec Spec, res *Result) {
 			hist[i] = h.String()
 		}
 		r.Violation(key, fmt.Sprintf("[%s] after %v, operation %s: %s", label, hist, v.Op, v.Message),
-			map[string]any{"engine": "bfs", "harness": spec.Name, "backend": spec.Backend, "config": spec.Cfg, "history": v.Hist, "op": v.Op, "history_text": hist, "op_text": v.Op.String()},
+			map[string]any{"engine": "bfs", "harness": spec.Name, "backend": spec.Backend, "config": spec.Cfg, "scaled": spec.ScaleCompaction, "history": v.Hist, "op": v.Op, "history_text": hist, "op_text": v.Op.String()},
 			func() bool { return Replay(spec, v.Hist, v.Op) != "" })
 	}
 }
@@ -460,4 +462,76 @@ func firstWords(s string, n int) string {
 		f = f[:n]
 	}
 	return strings.Join(f, "_")
+}
+
+// HandleReplay implements --replay for the store-level searches: when the replay file names a violation found by one
+// of the given specs (engine "bfs", matched by harness name) or lock-step specs (engine "bfs-lockstep"), the recorded
+// history + operation is re-executed on a fresh instance and judged by the same oracle. It returns true when the
+// file was handled (the caller finishes the run).
+func HandleReplay(r *runner.Run, specs []Spec, locks []LockSpec) bool {
+	path := runner.ReplayPath()
+	if path == "" {
+		return false
+	}
+	b, err := os.ReadFile(path)
+	if err != nil {
+		r.Infra("replay: %v", err)
+		return true
+	}
+	var doc struct {
+		Key    string
+		Replay struct {
+			Engine, Harness, Backend string
+			Scaled                   bool
+			Config                   qmodel.Config
+			History                  []qmodel.Op
+			Op                       qmodel.Op
+		}
+	}
+	if err := json.Unmarshal(b, &doc); err != nil {
+		r.Infra("replay: %v", err)
+		return true
+	}
+	rp := doc.Replay
+	verdict := func(why string) {
+		var txt []string
+		for _, h := range rp.History {
+			txt = append(txt, h.String())
+		}
+		if why != "" {
+			r.Violation(doc.Key, fmt.Sprintf("[replay %s/%s] after %v, operation %s: %s", rp.Harness, rp.Backend, txt, rp.Op, why),
+				map[string]any{"engine": rp.Engine, "harness": rp.Harness, "backend": rp.Backend, "config": rp.Config, "history": rp.History, "op": rp.Op}, nil)
+		} else {
+			fmt.Printf("REPLAY property=%s harness=%s: the recorded history no longer violates the property\n", r.Prop, rp.Harness)
+		}
+		r.Add("states", int64(len(rp.History)+1))
+		r.Add("transitions", int64(len(rp.History)+1))
+		r.Add("traces_validated_against_impl", 1)
+		r.Sample(map[string]any{"replayed": path})
+	}
+	switch rp.Engine {
+	case "bfs":
+		for _, s := range specs {
+			if s.Name == rp.Harness {
+				s.Backend, s.Cfg = rp.Backend, rp.Config
+				if rp.Scaled && s.Backend == "memory" {
+					queue.VerifSetCompaction(2, 1)
+				}
+				verdict(Replay(s, rp.History, rp.Op))
+				return true
+			}
+		}
+	case "bfs-lockstep":
+		for _, s := range locks {
+			if s.Name == rp.Harness {
+				s.Cfg = rp.Config
+				if s.ScaleCompaction {
+					queue.VerifSetCompaction(2, 1)
+				}
+				verdict(ReplayLockstep(s, rp.History, rp.Op))
+				return true
+			}
+		}
+	}
+	return false
 }
